@@ -645,9 +645,10 @@ func vGenBook(t *rapid.T, o vBookOpts, label string) (vDoc, vBookInfo) {
 			taken[base] = true
 			return base
 		}
-		w1, w2, par := uniq("wide1"), uniq("wide2"), uniq("wideparent")
+		// "~" never occurs in generated names, so these cannot collide with them
+		w1, w2, par := uniq("wide~1"), uniq("wide~2"), uniq("wide~parent")
 		if o.Paths {
-			w1, w2, par = uniq("w/wide1"), uniq("w/wide2"), uniq("w/parent")
+			w1, w2, par = uniq("w/wide~1"), uniq("w/wide~2"), uniq("w/parent~")
 		}
 		npool := rapid.IntRange(34, 90).Draw(t, label+".widepool")
 		mk := func(head string, lbl string) vRec {
@@ -660,7 +661,7 @@ func vGenBook(t *rapid.T, o vBookOpts, label string) (vDoc, vBookInfo) {
 				if !o.Exact {
 					num = vGenNumDecimal(t, lbl+".v")
 				}
-				lines = append(lines, vLine{Kind: vkEntry, Name: fmt.Sprintf("n%02d", i), Num: num, L: vGenEntryLayout(t, o.Layout, lbl+".el")})
+				lines = append(lines, vLine{Kind: vkEntry, Name: fmt.Sprintf("n~%02d", i), Num: num, L: vGenEntryLayout(t, o.Layout, lbl+".el")})
 			}
 			// recipe references at the very end of a long list (position 65 and beyond when the pool is large)
 			if o.MaxDepth >= 3 {
